@@ -108,7 +108,8 @@ CHECKS = {
         "bounds": {}, "assumptions": [],
     },
     "C09": {
-        "runs": [dict(ACTION, entries=["H09Concurrent"], bounds_quick={"preemptions": 3, "maxhist": 1}, bounds_thorough={"preemptions": 4, "maxhist": 2}, limits={"max_instrs": 20000000, "max_decisions": 2000})],
+        "runs": [dict(ACTION, entries=["H09Concurrent"], bounds_quick={"preemptions": 3, "maxhist": 1}, bounds_thorough={"preemptions": 4, "maxhist": 2}, limits={"max_instrs": 20000000, "max_decisions": 2000}),
+                 dict(pkg="./pkg/storage/driver", files=["pkg/storage/driver/h_c09_race.go"], entries=["H09Race"], race=True)],
         "bounds": {}, "assumptions": [],
     },
     "C10": {
